@@ -1,7 +1,7 @@
 SPECIFICATION Spec
 CONSTANTS
   SEED = 1
-  M_CORE = 2
+  M_CORE = 3
   M_DIV = 6
   M_INT = 12
   M_UN = 1
